@@ -5,7 +5,7 @@
    Section variables: they are the trusted base named in the evidence.  Everything about integers,
    booleans, text, categorical labels, paths, the group-by split and the index lookup is proved.   *)
 From Coq Require Import NArith ZArith Bool Ascii String List Permutation.
-From Pq Require Import Base.Bytes Impl.Partition Proofs.PartitionStr Proofs.PartitionProofs.
+From Pq Require Import Base.Bytes Impl.Partition Proofs.PartitionStr Proofs.PartitionProofs Proofs.PartitionE2E.
 Import ListNotations.
 
 Section C08.
@@ -80,6 +80,79 @@ Section C08.
     exact (index_lookup F T D feqb teqb deqb f_eq_Z show_float parse_float show_time_iso show_time_str
              parse_time_np parse_time_fmt parse_time_pd parse_delta feqb_spec teqb_spec).
   Qed.
+
+  (* ---- C08_multiset, hive.  For EVERY frame (list of rows = optional key per partition column + payload),
+     EVERY split into row groups `chunks`, EVERY number >= 1 of partition columns `names` (distinct, legal
+     segment text), EVERY iteration order `ord` of the set of directories: if every non-null key value v of
+     column n is admissible (Pv_hive: the metadata block gives a kind k for n, v is of that kind [wf], its
+     text is a legal path segment, and the text converts back: parse_with_meta k (show v) = Ok (unwrap v) -
+     proved above for integers, booleans, text, text categoricals; an assumption about Python/numpy for
+     floats and timestamps), then reading what was written succeeds, detects the hive scheme, and returns -
+     as a multiset - exactly the rows with non-null keys, each with its partition columns under their
+     original names with their original values (categoricals: their labels).                          *)
+  Theorem C08_multiset_hive :
+    forall (pm : list (str * kind)) (names : list str), NoDup names -> names <> [] -> Forall legal names ->
+    forall ord : list str -> list str, (forall l x, In x (ord l) <-> In x l) ->
+    forall chunks : list (list (row F T D P)),
+    frame_ok F T D P names (Pv_hive F T D show_float parse_float show_time_iso show_time_str parse_time_np parse_time_fmt pm) (concat chunks) ->
+    exists sch out,
+      read_model F T D feqb teqb deqb f_eq_Z parse_float parse_time_np parse_time_fmt parse_time_pd parse_delta P pm ord
+        (write_model F T D feqb teqb deqb f_eq_Z show_float show_time_iso show_time_str P true names chunks) = Some (sch, out) /\
+      Permutation out (map (expect F T D P names (unwrap F T D)) (filter (nonnull F T D P) (concat chunks))) /\
+      (filter (nonnull F T D P) (concat chunks) <> [] -> sch = Hive).
+  Proof.
+    exact (hive_e2e F T D feqb teqb deqb f_eq_Z show_float parse_float show_time_iso show_time_str
+             parse_time_np parse_time_fmt parse_time_pd parse_delta feqb_spec teqb_spec deqb_spec P).
+  Qed.
+
+  (* every stored row has non-null keys and lies in the directory named by its own key; the stored rows
+     are, as a multiset, the rows with non-null keys (so: in that directory and nowhere else) *)
+  Theorem C08_placement_hive :
+    forall (pm : list (str * kind)) (names : list str) (chunks : list (list (row F T D P))),
+    frame_ok F T D P names (Pv_hive F T D show_float parse_float show_time_iso show_time_str parse_time_np parse_time_fmt pm) (concat chunks) ->
+    let files := write_model F T D feqb teqb deqb f_eq_Z show_float show_time_iso show_time_str P true names chunks in
+    Permutation (concat (map snd files)) (filter (nonnull F T D P) (concat chunks)) /\
+    forall f r, In f files -> In r (snd f) ->
+      nonnull F T D P r = true /\
+      exists i, fst f = rel_path F T D show_float show_time_iso show_time_str true names (key_of F T D P r) (part_name i).
+  Proof.
+    exact (hive_placement F T D feqb teqb deqb f_eq_Z show_float parse_float show_time_iso show_time_str
+             parse_time_np parse_time_fmt parse_time_pd parse_delta feqb_spec teqb_spec deqb_spec P).
+  Qed.
+
+  (* ---- C08_multiset, drill: levels that hold integers, booleans, or text that no guess of _val_to_num
+     converts (lk: class of each level; Pv_drill: no metadata under the positional name dirN, non-empty
+     legal segment text).  The levels come back as dir0, dir1, ... with the guessed value of the key text
+     (the integer, the boolean, the text).  Floats/timestamps in drill levels and levels mixing classes
+     are NOT covered (the latter is refuted below).                                                   *)
+  Theorem C08_multiset_drill :
+    forall (pm : list (str * kind)) (names : list str), names <> [] ->
+    forall ord : list str -> list str, (forall l x, In x (ord l) <-> In x l) ->
+    forall (lk : str -> lclass) (chunks : list (list (row F T D P))),
+    frame_ok F T D P (dnames names) (Pv_drill F T D show_float parse_float show_time_iso show_time_str parse_time_pd parse_delta pm lk) (concat chunks) ->
+    exists sch out,
+      read_model F T D feqb teqb deqb f_eq_Z parse_float parse_time_np parse_time_fmt parse_time_pd parse_delta P pm ord
+        (write_model F T D feqb teqb deqb f_eq_Z show_float show_time_iso show_time_str P false names chunks) = Some (sch, out) /\
+      Permutation out (map (expect F T D P (dnames names) (rv_drill F T D show_float parse_float show_time_iso show_time_str parse_time_pd parse_delta))
+                           (filter (nonnull F T D P) (concat chunks))) /\
+      (filter (nonnull F T D P) (concat chunks) <> [] -> sch = Drill).
+  Proof.
+    exact (drill_e2e F T D feqb teqb deqb f_eq_Z show_float parse_float show_time_iso show_time_str
+             parse_time_np parse_time_fmt parse_time_pd parse_delta feqb_spec teqb_spec deqb_spec P).
+  Qed.
+
+  Theorem C08_placement_drill :
+    forall (pm : list (str * kind)) (names : list str) (lk : str -> lclass) (chunks : list (list (row F T D P))),
+    frame_ok F T D P (dnames names) (Pv_drill F T D show_float parse_float show_time_iso show_time_str parse_time_pd parse_delta pm lk) (concat chunks) ->
+    let files := write_model F T D feqb teqb deqb f_eq_Z show_float show_time_iso show_time_str P false names chunks in
+    Permutation (concat (map snd files)) (filter (nonnull F T D P) (concat chunks)) /\
+    forall f r, In f files -> In r (snd f) ->
+      nonnull F T D P r = true /\
+      exists i, fst f = rel_path F T D show_float show_time_iso show_time_str false names (key_of F T D P r) (part_name i).
+  Proof.
+    exact (drill_placement F T D feqb teqb deqb f_eq_Z show_float parse_float show_time_iso show_time_str
+             parse_time_pd parse_delta feqb_spec teqb_spec deqb_spec P).
+  Qed.
 End C08.
 
 Print Assumptions C08_int_text_roundtrip.
@@ -91,6 +164,30 @@ Print Assumptions C08_guess_int.
 Print Assumptions C08_categorical_numeric_refuted.
 Print Assumptions C08_groupby_partition.
 Print Assumptions C08_index_lookup.
+
+Print Assumptions C08_multiset_hive.
+Print Assumptions C08_placement_hive.
+Print Assumptions C08_multiset_drill.
+Print Assumptions C08_placement_drill.
+
+(* known defect (finding C08-drill-mixed-text): a drill level holding plain text AND number-looking text
+   cannot be read - computed on the closed instance of the model (no floats/timestamps) *)
+Theorem C08_drill_mixed_text_refuted : exists rows,
+  cread [] (cwrite false [s_ "k"] [rows]) = None.
+Proof. exists [([Some (VStr (s_ "a"))], 0%nat); ([Some (VStr (s_ "2"))], 1%nat)]. vm_compute. reflexivity. Qed.
+Print Assumptions C08_drill_mixed_text_refuted.
+
+(* the hypotheses of C08_multiset_hive are satisfiable and the conclusion is what one expects: a frame with
+   a text and an int64 partition column, a NULL key, two row groups *)
+Example C08_multiset_nonvacuous :
+  cread [(s_ "k", KStr); (s_ "n", KInt true 64)]
+    (cwrite true [s_ "k"; s_ "n"]
+       [[([Some (VStr (s_ "a")); Some (VInt 5)], 0%nat); ([Some (VStr (s_ "2")); None], 1%nat)];
+        [([Some (VStr (s_ "a")); Some (VInt (-7))], 2%nat); ([Some (VStr (s_ "a")); Some (VInt 5)], 3%nat)]])
+  = Some (Hive, [([(s_ "k", VStr (s_ "a")); (s_ "n", VInt 5)], 0%nat);
+                 ([(s_ "k", VStr (s_ "a")); (s_ "n", VInt (-7))], 2%nat);
+                 ([(s_ "k", VStr (s_ "a")); (s_ "n", VInt 5)], 3%nat)]).
+Proof. vm_compute. reflexivity. Qed.
 
 Example C08_nonvacuous :
   parse_int (show_Z (-9223372036854775808)) = Some (-9223372036854775808)%Z /\
